@@ -13,7 +13,12 @@ core.rs string_to_num / compiler.rs number (parse the text unchanged) -> gen/Num
 (c) lexing    programs `print(<d1><continuation>);` impl == S (split known by construction) and M == S;
 (d) routes    every statement that turns a number into text (print, interpolation alone / inside text / several parts,
     String.from, concatenation, vec / tuple / map / nested display, thrown value, error message) fed with the literal TEXT
-    (non-canonical spellings) and with a variable holding the same double: all must print the canonical text."""
+    (non-canonical spellings) and with a variable holding the same double: all must print the canonical text;
+(e) sequences (round 9) every route fed with 2-4 numbers one after the other (pairs that are == but print differently, or != but
+    equal under a cast / rounding / sign / word of the bits; all orderings up to length 3; variable and literal forms), and a LENGTH
+    ladder 17..1100 (thorough ..5000) of numbers through the routes inside ONE Vm: each position must show the text the
+    single-number route gives (size-independent oracle); side condition C19_src_no_number_memory (no float-typed Vm field /
+    static, route bodies touch no state)."""
 import json
 import os
 import re
@@ -795,6 +800,307 @@ def check_routes(ctx, lits, rbits, tag, exprs=()):
 
 
 # ------------------------------------------------------------------------------------------
+# (e) SEQUENCES: every number->text route fed with 2-4 numbers one after the other (round 9: a route with MEMORY - a memo
+#     keyed by `==`, by a cast, by the bits, a reused buffer - is invisible when every program formats ONE number)
+
+def num_text(b):
+    """a text whose to_num() is exactly the double with these bits (NaN as a class)"""
+    if is_nan_bits(b):
+        return "NaN"
+    return repr(struct.unpack("<d", struct.pack("<Q", b))[0])
+
+
+def py_text(b):
+    """canonical text of a double computed WITHOUT the implementation (Python's shortest repr, positional)"""
+    if is_nan_bits(b):
+        return "NaN"
+    mb = b & ~SIGN & MASK
+    sign = "-" if b & SIGN else ""
+    if mb == INF:
+        return sign + "inf"
+    return sign + py_canon(struct.unpack("<d", struct.pack("<Q", mb))[0])
+
+
+def host_display(ctx, binary, allbits):
+    """bits -> host-side Display text.  The texts are asked for in ONE process, one after the other, so a Display with memory would
+    poison them: every text that differs from the independent canonical text is asked for again ALONE in a fresh process; if the
+    fresh answer differs from the in-sequence answer, Display itself depends on history -> violation."""
+    disp = {}
+    for i in range(0, len(allbits), 200):
+        for rec in yvlib.run_harness(binary, ["numfmt " + " ".join(str(b) for b in allbits[i:i + 200])]):
+            for l in rec.lines:
+                f = l.split(" ")
+                if f[0] == "D" and len(f) >= 2:
+                    disp[int(f[1])] = yvlib.unhx(f[2]).decode() if len(f) > 2 else ""
+    odd = [b for b in allbits if b in disp and disp[b] != py_text(b)][:40]
+    for b in odd:
+        alone = None
+        for rec in yvlib.run_harness(binary, ["numfmt %d" % b]):
+            for l in rec.lines:
+                f = l.split(" ")
+                if f[0] == "D" and len(f) >= 2:
+                    alone = yvlib.unhx(f[2]).decode() if len(f) > 2 else ""
+        if alone is not None and alone != disp[b]:
+            ctx.violation("the Display text of a number depends on the numbers displayed before it (host side, no Vm involved)", kind="seq",
+                          seqs=[[x for x in allbits[:allbits.index(b) + 1][-4:]]], input="format!(\"{}\", Value::Number(f64::from_bits(%d))) after other numbers" % b,
+                          expected=alone[:200], actual=disp[b][:200])
+            disp[b] = alone
+    return disp
+
+
+def seq_tuples(rng, nrand):
+    """tuples of 2-3 bit patterns: `==` but printed differently, or `!=` but equal under some plausible memo key
+    (a cast to an integer / f32, a rounded value, the magnitude, the low or high word of the bits)"""
+    F = lambda v: f2b(float(v))
+    one = F(1.0)
+    t = [(0, SIGN), (QNAN, QNAN | SIGN | 1), (QNAN, 0), (QNAN, SIGN, 0), (INF, INF | SIGN), (INF, F(2.0 ** 63)), (INF, INF - 1), (INF | SIGN, F(-2.0 ** 63)),
+         (F(0.1 + 0.2), F(0.3)), (F(0.1 + 0.2), F(0.3), F(0.1 + 0.2) + 1), (F(2.0 ** 53), F(2.0 ** 53) + 1), (F(2.0 ** 53), F(2.0 ** 53) - 1),
+         (one, one + 1), (one, one - 1), (one, F(-1.0)), (one, F(1.5)), (F(1.5), F(2.0)), (F(0.5), 0), (F(-0.5), SIGN), (F(0.4), 0, SIGN),
+         (F(5e-324), 0), (F(5e-324) | SIGN, SIGN), (F(1e-320), F(1.0000001e-320)), (F(4294967296.0), 0), (F(4294967297.0), one), (F(2.0 ** 64), 0),
+         (F(2.0 ** 63), F(2.0 ** 63) + 1), (F(2.0 ** 63), F(2.0 ** 64)), (F(1e21), F(1e21) + 1), (F(1e16), F(1e16) + 1), (F(16777216.0), F(16777217.0)),
+         (F(0.1), F(0.1) + 1, F(0.1) - 1), (F(0.1), F(0.10000000149011612)), (F(255.0), F(256.0)), (F(-1.0), F(255.0)), (F(3.0), F(-3.0)),
+         (F(1e300), F(1e-300)), (F(1.7976931348623157e308), INF), (F(123456789.0), F(123456789.5)), (0, SIGN, one), (SIGN, 0, QNAN),
+         (F(2.0), F(2.0) | 1, F(2.0) | (1 << 32)), (one, one | (1 << 32)), (F(3.0), F(3.0) ^ (1 << 52))]
+    for _ in range(nrand):
+        style = rng.random()
+        a = random_bits(rng, 1)[0]
+        if style < 0.35:      # neighbours
+            b = (a + rng.choice([1, -1, 2, 1 << 29, 1 << 32])) & MASK
+            t.append((a, b) if rng.random() < 0.6 else (a, b, a ^ SIGN))
+        elif style < 0.55:    # sign
+            t.append((a, a ^ SIGN))
+        elif style < 0.8:     # same integer part / same f32
+            v = rng.randint(0, 10 ** rng.randint(1, 12))
+            t.append((F(v), F(v + rng.choice([0.5, 0.25, 1e-3, 1.0]))))
+        else:
+            t.append(tuple(random_bits(rng, rng.choice([2, 3]))))
+    res = []
+    for tp in t:
+        tp = tuple(x & MASK for x in tp)
+        if len(set(tp)) == len(tp):
+            res.append(tp)
+    return list(dict.fromkeys(res))
+
+
+def lit_form(b, rng):
+    """a literal / computed expression for a finite double (spelling not always canonical); None when there is none"""
+    if is_nan_bits(b):
+        return rng.choice(["(0 / 0)", "-(0 / 0)"])
+    mb = b & ~SIGN & MASK
+    if mb == INF:
+        return "(1 / 0)" if b == INF else "(-1 / 0)"
+    if b == SIGN:
+        return rng.choice(["-0", "-0.0", "(0 * -1)"])
+    t = py_canon(struct.unpack("<d", struct.pack("<Q", mb))[0])
+    if len(t) > 400:
+        return None
+    v = rng.random()
+    if v < 0.3 and "." not in t:
+        t += ".0"
+    elif v < 0.45:
+        t = "0" + t
+    elif v < 0.55 and "." in t:
+        t += "0"
+    return ("-" if b & SIGN else "") + t
+
+
+SEQ_ORDERS2 = ["ab", "ba", "aab", "aba", "baa", "abb", "bab", "bba"]
+SEQ_ORDERS3 = ["abc", "acb", "bac", "cba"]
+
+
+def seq_statements(es, ts_, fin0):
+    """all sequence routes for the expressions es (2-4 of them); returns [(statement, [expected lines with @1..@4])]"""
+    n = len(es)
+    P = ["@%d" % (i + 1) for i in range(n)]
+    holes = ["${%s}" % e for e in es]
+    st = []
+    st.append((" ".join("print(%s);" % e for e in es), list(P)))
+    st.append(('print("%s");' % " ".join(holes), [" ".join(P)]))
+    st.append(('print("%s");' % "".join(holes), ["".join(P)]))
+    st.append(('print("a%sz");' % ", b".join(holes), ["a" + ", b".join(P) + "z"]))
+    st.append((" ".join('print("%s");' % h for h in holes), list(P)))
+    st.append(("{ " + " ".join('var s%d = "<%s>";' % (i, h) for i, h in enumerate(holes)) + " print(%s); }" % " + ".join("s%d" % i for i in range(n)),
+               ["".join("<%s>" % p for p in P)]))
+    st.append(('print(%s);' % ' + "," + '.join("String.from(%s)" % e for e in es), [",".join(P)]))
+    st.append(('print("%s" + String.from(%s) + "%s");' % (holes[0], es[1], "".join(holes[1:])), [P[0] + P[1] + "".join(P[1:])]))
+    st.append(('{ var p = "%s".split("|"); print(%s); }' % ("|".join(holes), ' + ";" + '.join("String.from(p[%d].to_num())" % i for i in range(n))),
+               [";".join(P)]))
+    st.append(('print([%s]);' % ", ".join(es), ["[" + ", ".join(P) + "]"]))
+    st.append(('print((%s));' % ", ".join(es), ["(" + ", ".join(P) + ")"]))
+    st.append(('print("${[%s]} %s");' % (", ".join(es[:-1]) if n > 2 else es[0], holes[-1]),
+               ["[" + ", ".join(P[:-1] if n > 2 else P[:1]) + "] " + P[-1]]))
+    st.append(('print([%s, (%s)]);' % (es[0], ", ".join(es[1:]) + ("," if n == 2 else "")),
+               ["[%s, (%s)]" % (P[0], ", ".join(P[1:]) + ("," if n == 2 else ""))]))
+    st.append(('{ fn f(%s) { return "%s"; } print(f(%s)); }' % (", ".join("p%d" % i for i in range(n)), "|".join("${p%d}" % i for i in range(n)), ", ".join(es)),
+               ["|".join(P)]))
+    st.append(('for v in [%s] { print("<${v}>"); }' % ", ".join(es), ["<%s>" % p for p in P]))
+    st.append(('{ var acc = ""; for v in [%s] { acc = acc + "${v},"; } print(acc); }' % ", ".join(es), ["".join(p + "," for p in P)]))
+    st.append(('print("%s ${"s"} %s");' % (holes[0], " ".join(holes[1:])), [P[0] + " s " + " ".join(P[1:])]))
+    st.append(('print("%s ${"%s"} %s");' % (holes[0], holes[1], " ".join(holes[1:])), [P[0] + " " + P[1] + " " + " ".join(P[1:])]))
+    st.append(('try { throw %s; } catch e { print("${e} %s"); }' % (es[0], " ".join(holes[1:])), [" ".join(P)]))
+    st.append(('print("%s"); print(String.from(%s)); print(%s);' % (holes[0], es[1], es[-1]), [P[0], P[1], P[-1]]))
+    if fin0:
+        st.append(('print({%s: %s});' % (es[0], es[1]), ["{%s: %s}" % (P[0], P[1])]))
+    return st
+
+
+def check_sequences(ctx, tuples, tag, forms=("var", "lit"), extra_orders=1):
+    """tuples: list of tuples of bit patterns.  For each tuple, the values are bound to x (host-set, first value) and to globals
+    v1.. (through to_num of an exact text), or written as literal / computed expressions; every ordering of SEQ_ORDERS2/3 (+ random
+    length-4 ones) goes through every sequence route.  Spec: each position shows the host-side Display text of ITS double."""
+    binary = ctx.harness("debug")
+    rng = ctx.rng
+    allbits = list(dict.fromkeys(b for tp in tuples for b in tp))
+    disp = host_display(ctx, binary, allbits)
+    items, meta = [], []
+    for tp in tuples:
+        if any(b not in disp for b in tp):
+            ctx.corr_broken.append("numfmt gave no text for one of %r" % (tp,))
+            continue
+        names = "abc"[:len(tp)]
+        orders = list(SEQ_ORDERS2 if len(tp) == 2 else SEQ_ORDERS3)
+        for _ in range(extra_orders):
+            o = "".join(rng.choice(names) for _ in range(4))
+            if len(set(o)) > 1:
+                orders.append(o)
+        for form in forms:
+            if form == "var":
+                ex = {"a": "x"}
+                pre = []
+                for k, b in enumerate(tp[1:], 1):
+                    pre.append('var v%d = "%s".to_num();' % (k, num_text(b)))
+                    ex[names[k]] = "v%d" % k
+            else:
+                ex = {nm: lit_form(b, rng) for nm, b in zip(names, tp)}
+                pre = []
+                if any(v is None for v in ex.values()):
+                    continue
+            src, exp, stm = list(pre), [], []
+            for o in orders:
+                es = [ex[c] for c in o]
+                bs = [tp[names.index(c)] for c in o]
+                fin0 = not is_nan_bits(bs[0]) and (bs[0] & ~SIGN & MASK) < INF
+                for s, e in seq_statements(es, None, fin0):
+                    src.append(s)
+                    for line in e:
+                        for i in range(len(bs), 0, -1):
+                            line = line.replace("@%d" % i, "\x00%d\x00" % i)
+                        for i in range(len(bs), 0, -1):
+                            line = line.replace("\x00%d\x00" % i, disp[bs[i - 1]])
+                        exp.append(line)
+                        stm.append(s)
+            items.append((tp[0], "\n".join(src)))
+            meta.append({"tp": tp, "form": form, "pre": pre, "exp": exp, "stm": stm, "src": src})
+    sn = run_real(binary, items, batch=12)
+    nlines, nontriv = 0, set()
+    for mt, s in zip(meta, sn):
+        bad = None
+        if s["R"] != "ok" or len(s["O"]) != len(mt["exp"]):
+            # a statement that fails changes the line count: re-run statement by statement to name it
+            bad = {"statement": "\n".join(mt["src"])[:600], "expected": "ok, %d lines" % len(mt["exp"]),
+                   "actual": str((s["R"], s["M"][:2], len(s["O"])))}
+        else:
+            nlines += len(s["O"])
+            for stt, want, got in zip(mt["stm"], mt["exp"], s["O"]):
+                if got != want:
+                    bad = {"statement": " ".join(mt["pre"]) + " " + stt, "expected": want, "actual": got}
+                    break
+        if bad:
+            ctx.violation("a number->text route fed with a SEQUENCE of numbers does not give each number its own text "
+                          "(what a route prints for a number depends on the numbers formatted before it)", kind="seq",
+                          seqs=[list(mt["tp"])], input="x = f64::from_bits(%d); %s" % (mt["tp"][0], bad["statement"][:700]),
+                          expected=bad["expected"][:300], actual=bad["actual"][:300])
+            continue
+        nontriv.add((mt["tp"], mt["form"]))
+    return nlines, nontriv
+
+
+SCALE_STYLES = ["count", "halves", "zeros", "low_word", "high_word", "cycle", "random", "neighbours"]
+
+
+def scale_values(rng, style, n):
+    """n bit patterns whose texts are easy to tell apart by position and that collide under modular / truncated memo keys"""
+    F = lambda v: f2b(float(v))
+    if style == "count":
+        k0 = rng.choice([0, 1, 2 ** 31 - n // 2, 2 ** 53 - n, 10 ** 15])
+        return [F(k0 + i) for i in range(n)]
+    if style == "halves":
+        return [F((i // 2) + 0.5 * (i % 2)) | (SIGN if i % 3 == 2 else 0) for i in range(n)]
+    if style == "zeros":
+        return [rng.choice([0, SIGN, 0, SIGN, F(1.0), F(-1.0), QNAN]) for _ in range(n)]
+    if style == "low_word":        # equal low 32 bits / equal value modulo a power of two
+        m = rng.choice([16, 64, 256, 1024, 2 ** 32])
+        return [F(rng.randint(0, 9) + m * i) for i in range(n)]
+    if style == "high_word":       # equal high 32 bits
+        base = (rng.randint(1023 - 20, 1023 + 40) << 52) | (rng.getrandbits(20) << 32)
+        return [base | rng.getrandbits(32) for _ in range(n)]
+    if style == "cycle":
+        per = rng.choice([2, 3, 5, 17])
+        vals = random_bits(rng, per - 1) + [rng.choice([0, SIGN])]
+        return [vals[i % per] for i in range(n)]
+    if style == "neighbours":
+        a = random_bits(rng, 1)[0] & ~(0x7FF << 52) | (rng.randint(1023 - 30, 1023 + 60) << 52)
+        return [(a + i) & MASK for i in range(n)]
+    return random_bits(rng, n)
+
+
+def check_seq_scale(ctx, cases, tag):
+    """cases: [(style, [bits...])].  LENGTH ladder of the sequence family: n numbers go, one after the other in ONE Vm, through
+    interpolation in a loop, print, String.from + concatenation, the Display of one vec of n elements, one string of up to 120 holes and
+    the to_num round trip.  Oracle per position: the host-side Display of that double (independent of n)."""
+    binary = ctx.harness("debug")
+    allbits = list(dict.fromkeys(b for _, bs in cases for b in bs))
+    disp = host_display(ctx, binary, allbits)
+    items, meta = [], []
+    for style, bs in cases:
+        if any(b not in disp for b in bs):
+            ctx.corr_broken.append("numfmt gave no text for a value of a scale case")
+            continue
+        T = [disp[b] for b in bs]
+        nh = min(len(bs), 120)
+        src = ['var vs = []; for t in "%s".split(",") { vs.push(t.to_num()); }' % ",".join(num_text(b) for b in bs),
+               'for v in vs { print("<${v}>"); }',
+               'for v in vs { print(v); }',
+               '{ var acc = ""; for v in vs { acc = acc + String.from(v) + ","; } print(acc); }',
+               'print(vs);',
+               'print("${vs}|${vs[0]}");',
+               'print("%s");' % " ".join("${vs[%d]}" % i for i in range(nh)),
+               '{ var acc = ""; for v in vs { acc = acc + String.from("${v}".to_num()) + ";"; } print(acc); }']
+        exp = ["<%s>" % t for t in T] + T + ["".join(t + "," for t in T), "[" + ", ".join(T) + "]", "[" + ", ".join(T) + "]|" + T[0],
+                                             " ".join(T[:nh]), "".join(t + ";" for t in T)]
+        items.append((None, "\n".join(src)))
+        meta.append({"style": style, "bits": bs, "exp": exp, "src": src})
+    # the debug build collects at every allocation: long sequences run on the release build
+    small = [k for k, mt in enumerate(meta) if len(mt["bits"]) <= 129]
+    big = [k for k, mt in enumerate(meta) if len(mt["bits"]) > 129]
+    sn = [None] * len(items)
+    for idx, bn in ((small, binary), (big, ctx.harness("release") if big else None)):
+        if idx:
+            for k, r in zip(idx, run_real(bn, [items[k] for k in idx], batch=4)):
+                sn[k] = r
+    nlines, nontriv = 0, set()
+    for mt, s in zip(meta, sn):
+        bad = None
+        if s["R"] != "ok" or len(s["O"]) != len(mt["exp"]):
+            bad = ("ok, %d lines" % len(mt["exp"]), str((s["R"], s["M"][:2], len(s["O"]))), "")
+        else:
+            nlines += len(s["O"])
+            for k, (want, got) in enumerate(zip(mt["exp"], s["O"])):
+                if got != want:
+                    # first differing position of a long line
+                    d = next((i for i, (a, b) in enumerate(zip(want, got)) if a != b), min(len(want), len(got)))
+                    bad = ("…" + want[max(0, d - 40):d + 60], "…" + got[max(0, d - 40):d + 60], "printed line %d, first difference at character %d" % (k, d))
+                    break
+        if bad:
+            ctx.violation("a number->text route fed with a LONG sequence of numbers (%d, style %s) does not give each number its own text" % (
+                len(mt["bits"]), mt["style"]), kind="seqscale", scale=[[mt["style"], list(mt["bits"])]],
+                input=("\n".join(mt["src"]))[:900] + (" // " + bad[2] if bad[2] else ""), expected=bad[0][:300], actual=bad[1][:300])
+            continue
+        nontriv.add((mt["style"], len(mt["bits"])))
+    return nlines, nontriv
+
+
+# ------------------------------------------------------------------------------------------
 
 
 def src_structure(ctx):
@@ -804,7 +1110,7 @@ def src_structure(ctx):
             man = json.load(fh)
     except Exception:
         return {}
-    d = {k: man.get(k) for k in ("c19_display_number", "c19_scanner_number", "c19_parse_sites", "c19_text_routes")}
+    d = {k: man.get(k) for k in ("c19_display_number", "c19_scanner_number", "c19_parse_sites", "c19_text_routes", "c19_number_memory")}
     flags = []
     for k, v in d.items():
         for kk, vv in (v or {}).items():
@@ -830,6 +1136,28 @@ def corpus_lits():
     return res
 
 
+def corpus_seqs():
+    res = []
+    cdir = os.path.join(yvlib.VERIF, "corpus", "C19")
+    if os.path.isdir(cdir):
+        for f in sorted(os.listdir(cdir)):
+            with open(os.path.join(cdir, f)) as fh:
+                j = json.load(fh)
+            res += [tuple(int(b) for b in tp) for tp in j.get("seqs", [])]
+    return res
+
+
+def corpus_scale():
+    res = []
+    cdir = os.path.join(yvlib.VERIF, "corpus", "C19")
+    if os.path.isdir(cdir):
+        for f in sorted(os.listdir(cdir)):
+            with open(os.path.join(cdir, f)) as fh:
+                j = json.load(fh)
+            res += [(st, [int(b) for b in bs]) for st, bs in j.get("scale", [])]
+    return res
+
+
 def load_corpus():
     bits, texts, progs = [], [], []
     cdir = os.path.join(yvlib.VERIF, "corpus", "C19")
@@ -848,6 +1176,9 @@ SIZES = {  # random patterns, short decimals sampled (None = all), long decimals
     "search": (5200, 5000, 1200, 600, 1200),
     "thorough": (20000, None, 6000, 3000, 6000),
 }
+SCALE_LADDER = {"quick": [17, 33, 65, 129, 300, 1100], "search": [17, 33, 65, 129, 257, 300, 513, 1100, 2100],
+                "thorough": [5, 9, 17, 33, 65, 129, 257, 300, 513, 1025, 1100, 2100, 5000]}
+SEQ_SIZES = {"quick": 40, "search": 120, "thorough": 400}   # random tuples on top of the directed ones
 ROUTE_SIZES = {"quick": (260, 120), "search": (800, 300), "thorough": (3000, 1200)}   # literal texts, variable-only bit patterns
 
 
@@ -885,9 +1216,26 @@ def run_sized(ctx, size):
                                [(1086 << 52) | rng.getrandbits(52) | (rng.getrandbits(1) << 63) for _ in range(n_rb // 4)]))
     n_d, nt_d = check_routes(ctx, lits, rbits, size, exprs=lad_exprs)
     t5 = time.time()
-    log("[C19] %s: print %.1fs, midpoints %.1fs, parse %.1fs, lex %.1fs, routes %.1fs" % (size, t1 - t0, t2 - t1, t3 - t2, t4 - t3, t5 - t4))
+    # (e)
+    seqs = corpus_seqs() + seq_tuples(rng, SEQ_SIZES[size])
+    n_e, nt_e = check_sequences(ctx, seqs, size, extra_orders={"quick": 1, "search": 2, "thorough": 3}[size])
+    ladder = SCALE_LADDER[size]
+    styles = list(SCALE_STYLES)
+    rng.shuffle(styles)
+    sc_cases = []
+    for i, n in enumerate(ladder):       # every size with two styles; every style at least once
+        for st in (styles[i % len(styles)], styles[(i + len(ladder)) % len(styles)]):
+            sc_cases.append((st, scale_values(rng, st, n)))
+    for st in styles:
+        if st not in [c[0] for c in sc_cases]:
+            sc_cases.append((st, scale_values(rng, st, rng.choice(ladder[:4]))))
+    n_s, nt_s = check_seq_scale(ctx, corpus_scale() + sc_cases, size)
+    n_e += n_s
+    nt_e |= nt_s
+    t6 = time.time()
+    log("[C19] %s: print %.1fs, midpoints %.1fs, parse %.1fs, lex %.1fs, routes %.1fs, sequences %.1fs" % (size, t1 - t0, t2 - t1, t3 - t2, t4 - t3, t5 - t4, t6 - t5))
     ctx.cov["phase_seconds"] = {"print": round(t1 - t0, 1), "midpoints": round(t2 - t1, 1), "parse": round(t3 - t2, 1),
-                                "lex": round(t4 - t3, 1), "routes": round(t5 - t4, 1)}
+                                "lex": round(t4 - t3, 1), "routes": round(t5 - t4, 1), "sequences": round(t6 - t5, 1)}
     # thorough only: the fast digit search of print_f64 against the slow reference search (model-internal)
     n_ref = 0
     if size == "thorough":
@@ -908,15 +1256,18 @@ def run_sized(ctx, size):
     ctx.broken[:] = ctx.broken[:12]
     ex = lambda s, k: [x for x in list(s)[:k]]
     ctx.cov.update({
-        "evaluations": n_a + n_b + n_c + n_d,
-        "distinct_nontrivial": len(nt_a) + len(nt_b) + len(nt_c) + len(nt_d),
+        "evaluations": n_a + n_b + n_c + n_d + n_e,
+        "distinct_nontrivial": len(nt_a) + len(nt_b) + len(nt_c) + len(nt_d) + len(nt_e),
         "rule": "printing: distinct finite bit patterns whose printed text has >= 2 significant digits (%d of %d patterns); "
                 "parsing: distinct decimal texts whose value is NOT exactly representable, i.e. the conversion has to round (%d of %d texts); "
                 "lexing: distinct programs whose number is followed by a '.' continuation (%d of %d); "
                 "routes: distinct literal texts whose spelling is NOT the canonical print of the double they denote, each fed to %d "
-                "number->text statements as literal and as variable (%d of %d literals; %d printed lines compared)" % (
+                "number->text statements as literal and as variable (%d of %d literals; %d printed lines compared); "
+                "sequences: distinct (tuple of 2-3 doubles that are == but print differently / != but equal under a cast, rounding, sign or word of the bits; "
+                "variable or literal form), each in >= 5 orderings through 20 sequence routes, "
+                "plus (style, length) cases of the length ladder 17..1100 through 7 routes in one Vm (%d; %d printed lines compared)" % (
                     len(nt_a), len(bits), len(nt_b), len(set(ct + MALFORMED + sd + longs + mids)), len(nt_c), len(cases),
-                    len(ROUTES), len(nt_d), len(lits), n_d),
+                    len(ROUTES), len(nt_d), len(lits), n_d, len(nt_e), n_e),
         "input_distribution": {
             "bit_patterns": {"boundaries": len(boundary_bits()), "random": n_bits,
                              "mix": "55% uniform 64-bit, 20% exponents 2^-40..2^70, 10% few significant bits, 8% k/10^j, 7% subnormals"},
@@ -929,7 +1280,8 @@ def run_sized(ctx, size):
             "route_printer": "yarel's own print native (harness command numreal), not the harness printer", "route_statements": [r[0] for r in ROUTES],
         },
         "samples": [{"bits": b, "text": t[:60]} for b, t in printed[-3:]] + ex(nt_b, 3) + [c["prog"] for c in cases[-3:]] + [x[:60] for x in ex(nt_d, 3)],
-        "print_cases": n_a, "parse_cases": n_b, "lex_cases": n_c, "route_lines": n_d, "reference_search_cases": n_ref,
+        "print_cases": n_a, "parse_cases": n_b, "lex_cases": n_c, "route_lines": n_d, "sequence_lines": n_e, "sequence_tuples": len(seqs),
+        "reference_search_cases": n_ref,
         "source_structure": src_structure(ctx),
     })
 
@@ -947,6 +1299,10 @@ def run(ctx):
             ls = [yvlib.unhx(t).decode() for t in rp.get("lits", [])]
             check_routes(ctx, [(t.lstrip("-"), t.startswith("-")) for t in ls], [int(b) for b in rp.get("rbits", [])], "replay",
                          exprs=[(yvlib.unhx(t).decode(), int(b)) for t, b in rp.get("exprs", [])])
+        if rp.get("scale"):
+            check_seq_scale(ctx, [(st, [int(b) for b in bs]) for st, bs in rp["scale"]], "replay")
+        if rp.get("seqs"):
+            check_sequences(ctx, [tuple(int(b) for b in tp) for tp in rp["seqs"]], "replay", extra_orders=3)
         ctx.cov.update({"evaluations": 1, "distinct_nontrivial": 0, "rule": "replay of one recorded input", "samples": [rp.get("input")]})
         return
     run_sized(ctx, "quick" if ctx.quick() else "thorough")
